@@ -108,7 +108,7 @@ example : typeOf Γ₀ (.coalesce [.col 1, .col 0]) = none := by decide
 
 /-- the hypothesis matters: the rejected expression does raise a type error on a conforming row -/
 example (cx : EvalCtx) : ∃ m, eval cx [[.int 1, .str "a", .bool true]] (.bin .add (.col 0) (.col 1)) = .error (.type m) :=
-  ⟨_, by simp [eval, getCol, binVal, Val.arith, bind, Except.bind]⟩
+  ⟨"arithmetic on non-numeric", by simp [eval, getCol, binVal, Val.arith, bind, Except.bind]⟩
 
 /-- the bound is attained: one rule that always changes the plan is applied `max_iterations` times -/
 def bump : OptDriver.Rule Nat Unit := { name := "bump", apply := fun n => .ok (n + 1) }
